@@ -61,6 +61,9 @@ pub struct Compiler {
     /// Source file path for stack traces (propagated to all nested chunks)
     source_file: Option<String>,
 
+    /// Number of finally blocks being compiled around the current position
+    finally_depth: usize,
+
     /// Function declarations (by the source range they span) that were created at the top
     /// of their statement list and are skipped when the list reaches them
     hoisted_functions: FxHashSet<(usize, usize)>,
@@ -97,6 +100,8 @@ struct LoopContext {
     continue_jumps: Vec<JumpPlaceholder>,
     /// Try depth when this loop started (for finally handling)
     try_depth: usize,
+    /// Number of finally blocks this loop was started inside of
+    finally_depth: usize,
     /// Iterator register for for-of loops (for iterator close protocol)
     /// When set, break/return/throw should call iterator.return()
     iterator_reg: Option<Register>,
@@ -121,6 +126,7 @@ impl Compiler {
             next_class_brand: 0,
             track_completion: false,
             source_file: None,
+            finally_depth: 0,
             hoisted_functions: FxHashSet::default(),
         }
     }
@@ -266,10 +272,25 @@ impl Compiler {
             continue_target: None,
             continue_jumps: Vec::new(),
             try_depth: self.try_depth,
+            finally_depth: self.finally_depth,
             iterator_reg,
             scope_depth: self.scope_depth,
             is_switch: false,
         });
+    }
+
+    /// `break` / `continue` to the context `loop_idx`: if the jump leaves a finally block, the
+    /// completion that block was entered with (a parked return, throw, break or continue) is
+    /// replaced by the jump and must not be taken up again by a later `FinallyEnd`
+    fn emit_discard_completion_if_leaving_finally(&mut self, loop_idx: usize) {
+        let target_depth = self
+            .loop_stack
+            .get(loop_idx)
+            .map(|ctx| ctx.finally_depth)
+            .unwrap_or(0);
+        if self.finally_depth > target_depth {
+            self.builder.emit(Op::DiscardCompletion);
+        }
     }
 
     /// Push the break context of a switch statement
@@ -420,6 +441,9 @@ impl Compiler {
             }
         }
 
+        // A break that leaves a finally block replaces the completion the block was entered with
+        self.emit_discard_completion_if_leaving_finally(loop_idx);
+
         // Emit Break opcode with placeholder target
         let scopes = self.scopes_to_leave(loop_idx)?;
         let idx = self.builder.emit(Op::Break {
@@ -474,6 +498,9 @@ impl Compiler {
             .map(|(i, _)| i)
             .unwrap_or(loop_idx);
         let scopes = self.scopes_to_leave(scope_idx)?;
+
+        // A continue that leaves a finally block replaces the completion the block was entered with
+        self.emit_discard_completion_if_leaving_finally(loop_idx);
 
         if let Some(ctx) = self.loop_stack.get_mut(loop_idx) {
             if let Some(target) = ctx.continue_target {
